@@ -325,16 +325,23 @@ func H16_history() {
 	vAssert(err == nil, "build")
 	sb := segI.(*SegmentBase)
 	type handle struct {
-		vi   segment.VectorIndex
-		excl []bool
+		vi       segment.VectorIndex
+		excl     []bool
+		filtered bool
 	}
 	var open []handle
 	var prevExcl [][]bool
 	maxEv := vParam("maxEvents", 4)
 	for e := 0; e < maxEv; e++ {
-		switch vChoice(fmt.Sprint("ev", e), 4) {
+		switch vChoice(fmt.Sprint("ev", e), 5) {
 		case 0: // open with a symbolic exclusion set
-			except, excl := vExcept(fmt.Sprint("ex", e, "_"), nDocs)
+			var except *roaring.Bitmap
+			excl := make([]bool, nDocs)
+			if vBool(fmt.Sprint("ex", e, "_1")) {
+				except = roaring.New()
+				except.Add(1)
+				excl[1] = true
+			}
 			// recorded finding: the cache keeps the id map filtered by an earlier caller's exclusions
 			for _, pe := range prevExcl {
 				for d := range pe {
@@ -344,18 +351,31 @@ func H16_history() {
 				}
 			}
 			prevExcl = append(prevExcl, excl)
-			vi, err := sb.InterpretVectorIndex("v", vBool(fmt.Sprint("filt", e)), except)
+			filt := vBool(fmt.Sprint("filt", e))
+			vi, err := sb.InterpretVectorIndex("v", filt, except)
 			vAssert(err == nil && vi != nil, "interpret")
-			open = append(open, handle{vi, excl})
+			open = append(open, handle{vi, excl, filt})
 		case 1: // search on the most recent handle
 			if len(open) == 0 {
 				continue
 			}
 			h := open[len(open)-1]
 			q := vCatalogue[vChoice(fmt.Sprint("q", e), 2)]
-			pl, err := h.vi.Search(q, 2, nil)
-			vAssert(err == nil, "search-err")
-			sCheckVecResult(pl, vecs, sim, q, 2, func(d uint64) bool { return !h.excl[d] }, "")
+			if h.filtered {
+				// eligible: every document, or only document 0
+				elig := []uint64{0, 1}
+				all := vBool(fmt.Sprint("eligAll", e))
+				if !all {
+					elig = []uint64{0}
+				}
+				pl, err := h.vi.SearchWithFilter(q, 2, elig, nil)
+				vAssert(err == nil, "fsearch-err")
+				sCheckVecResult(pl, vecs, sim, q, 2, func(d uint64) bool { return !h.excl[d] && (all || d == 0) }, "f-")
+			} else {
+				pl, err := h.vi.Search(q, 2, nil)
+				vAssert(err == nil, "search-err")
+				sCheckVecResult(pl, vecs, sim, q, 2, func(d uint64) bool { return !h.excl[d] }, "")
+			}
 		case 2: // close the oldest handle
 			if len(open) == 0 {
 				continue
@@ -365,6 +385,15 @@ func H16_history() {
 		case 3: // expiry pass
 			sb.vecIndexCache.cleanup()
 			vRunSpawned()
+		case 4: // a quiet period: several expiry passes in a row (the moving average decays below the threshold)
+			for i := 0; i < 6; i++ {
+				sb.vecIndexCache.cleanup()
+				vRunSpawned()
+			}
+		}
+		// an index handed to a caller is not released before that caller closes it
+		if len(open) > 0 {
+			vAssert(faiss.VerifLive() >= 1, "released-while-open")
 		}
 		vAssert(faiss.VerifUsedAfterClose() == 0, "use-after-release")
 		vAssert(faiss.VerifDoubleClosed() == 0, "double-release")
@@ -389,7 +418,33 @@ func H19_faults() {
 	}
 	ops := []string{"IndexFactory", "AddWithIDs", "WriteIndexIntoBuffer", "ReadIndexFromBuffer", "ReconstructBatch"}
 	var z ZapPlugin
-	if vChoice("scenario", 2) == 0 {
+	scenario := vChoice("scenario", 2+vParam("large", 0))
+	if scenario == 2 {
+		// merge whose result crosses the 1000-vector threshold: clustered index path (SetDirectMap, Train)
+		big := func(prefix string, n int) []index.Document {
+			var docs []index.Document
+			for i := 0; i < n; i++ {
+				id := fmt.Sprint(prefix, i)
+				docs = append(docs, &vDoc{id: id, fields: []index.Field{vIDField(id), &vVecField{name: "v", vec: []float32{float32(i), 1}, sim: sim}}})
+			}
+			return docs
+		}
+		s0, _, err := z.newWithChunkMode(big("a", 520), DefaultChunkMode)
+		vAssert(err == nil, "big-build0")
+		s1, _, err := z.newWithChunkMode(big("b", 520), DefaultChunkMode)
+		vAssert(err == nil, "big-build1")
+		live0 := faiss.VerifLive()
+		bops := []string{"IndexFactory", "SetDirectMap", "Train", "AddWithIDs", "WriteIndexIntoBuffer"}
+		op := bops[vChoice("bop", len(bops))]
+		faiss.VerifFail(op, faiss.VerifCalls(op)+1)
+		_, _, err = z.Merge([]segment.Segment{s0, s1}, []*roaring.Bitmap{nil, nil}, vP("big.zap"), nil, nil)
+		vRunSpawned()
+		vAssert(err != nil, "big-failure-reported")
+		vAssert(!vFSExists(vP("big.zap")), "big-error-no-file")
+		vAssert(faiss.VerifLive() == live0, "big-no-index-leak")
+		return
+	}
+	if scenario == 0 {
 		// build
 		op := ops[vChoice("op", 3)]
 		faiss.VerifFail(op, 1)
